@@ -241,8 +241,9 @@ class TwoWay(Monitor):
         continue
       ca, cb = c['colId'], rc['colId']
       ra, rb = d[ta]['rows'], d[tb]['rows']
-      fwd = set((a, b) for a, row in ra.items() for b in _refs(row.get(ca)) if b in rb)
-      back = set((a, b) for b, row in rb.items() for a in _refs(row.get(cb)) if a in ra)
+      # (a cell naming a row that no longer exists has no counterpart at all: asymmetric)
+      fwd = set((a, b) for a, row in ra.items() for b in _refs(row.get(ca)))
+      back = set((a, b) for b, row in rb.items() for a in _refs(row.get(cb)))
       if fwd != back:
         yield (vkey('C11', 'asymmetric', ctx, extra='%s.%s~%s.%s' % (ta, ca, tb, cb)),
                "after %r: %s.%s and %s.%s disagree: only forward %s, only backward %s" % (
@@ -628,7 +629,7 @@ class Triggers(Monitor):
     kinds = set(a[0] for a in bundle)
     record_only = all(a[0] in self.RECORD and a[1] == 'T' for a in bundle)
     schema_only = not any(a[0] in self.RECORD and not a[1].startswith('_grist_') for a in bundle)
-    if not (record_only or schema_only):
+    if not (record_only or schema_only) or 'ReplaceTableData' in kinds:
       return
     cfg = self.config(pre)
     cfg_post = self.config(post)
@@ -729,7 +730,7 @@ class Triggers(Monitor):
     ctx.extra['trigger_cells_checked'] = n_checked
 
   @staticmethod
-  def config(dump):
+  def config(dump, any_formula=False):
     """{trigger col id: (recalcWhen, [dep col ids], self-dependent)} for table T."""
     tables = dump['_grist_Tables']['rows']
     tref = next((r for r, t in tables.items() if t['tableId'] == 'T'), None)
@@ -738,7 +739,49 @@ class Triggers(Monitor):
     out = {}
     for r, c in cols.items():
       # only the columns whose formula counts its own recalculations are modelled
-      if c['parentId'] == tref and not unb(c['isFormula']) and c['formula'] == TRIG_COUNT_FORMULA:
+      if (c['parentId'] == tref and not unb(c['isFormula']) and c['formula'] and
+          (any_formula or c['formula'] == TRIG_COUNT_FORMULA)):
         deps = as_list(c.get('recalcDeps')) or []
         out[c['colId']] = (c.get('recalcWhen') or 0, [byref.get(d, '?') for d in deps], r in deps)
     return out
+
+
+class TriggerReplay(Monitor):
+  """
+  C15, replay direction: undo and redo set every cell explicitly (ApplyUndoActions /
+  ApplyDocActions of recorded doc actions), so no trigger formula may run: after the undo every
+  trigger cell holds its pre-bundle value, after the redo its post-bundle value.
+  """
+  name = 'trigger-replay'
+  destructive = True
+
+  def check(self, ctx):
+    if ctx.exc is not None or 'T' not in ctx.pre_dump or 'T' not in ctx.post_dump:
+      return
+    pre, post = ctx.pre_dump, ctx.post_dump
+    cfg = Triggers.config(pre, any_formula=True)
+    g, e = ctx.doc.try_apply([["ApplyUndoActions", H.undo_reprs(ctx.group)]])
+    if e is not None:
+      return          # C01's business
+    mid = ctx.doc.dump()
+    for tcol in sorted(cfg):
+      for r, row in sorted(pre['T']['rows'].items()):
+        got = mid.get('T', {}).get('rows', {}).get(r, {}).get(tcol)
+        if tcol in row and got != row[tcol]:
+          yield (vkey('C15', 'undo-recalculated-trigger', ctx, extra=tcol),
+                 "after undoing %r: T[%s].%s = %r, before the bundle it held %r (undo supplies "
+                 "every value; no trigger formula may run)" % (ctx.label, r, tcol, got, row[tcol]))
+          break
+    g, e = ctx.doc.try_apply([["ApplyDocActions", H.stored_reprs(ctx.group)]])
+    if e is not None:
+      return
+    cfg2 = Triggers.config(post, any_formula=True)
+    end = ctx.doc.dump()
+    for tcol in sorted(cfg2):
+      for r, row in sorted(post['T']['rows'].items()):
+        got = end.get('T', {}).get('rows', {}).get(r, {}).get(tcol)
+        if tcol in row and got != row[tcol]:
+          yield (vkey('C15', 'redo-recalculated-trigger', ctx, extra=tcol),
+                 "after redoing %r: T[%s].%s = %r, the bundle itself left %r" % (
+                     ctx.label, r, tcol, got, row[tcol]))
+          break
